@@ -132,4 +132,3 @@ func cmdVerify(args []string) {
 		os.Exit(1)
 	}
 }
-
